@@ -19,7 +19,7 @@ RULE = ('Generated: antennas obeying the documented modelling rules (wires, tape
 BUDGET = {'quick': {'examples': 480, 'wall': 200}, 'thorough': {'examples': 20000, 'wall': 1500}}
 ASSUMPTIONS = ['pattern integral by quadrature of the program\'s own dBi table (32 x 48 nodes, doubled near the margin)',
                'load dissipation from reference load formulas (pv/ref/loads.py)']
-LABEL_FLOORS = {'power-factor>=0.1': 0.3, 'env-ideal': 0.2, 'env-real': 0.15, 'multi-source': 0.3, 'loaded': 0.3, 'curve': 0.08,
+LABEL_FLOORS = {'power-factor>=0.1': 0.3, 'env-ideal': 0.15, 'env-real': 0.15, 'multi-source': 0.3, 'loaded': 0.3, 'curve': 0.08,
                 'absorbing-source': 0.05, 'grounded-end2': 0.03, 'load-on-gnd': 0.005, 'power-requested': 0.15}
 
 
